@@ -126,21 +126,12 @@ fn main() {
                                 if te == r.end { aligned_end = true; }
                             }
                             if !(aligned_start && aligned_end) { ntok = -1; }
-                            // a module path: the range tiles exactly IDENT ("/" IDENT)* (trivia between them allowed)
-                            if ntok > 1 {
-                                let mut want_ident = true;
-                                let mut ok = true;
-                                let mut n = 0;
-                                for t in syntax::lexer::GleamLexer::new(tx) {
-                                    let (ts, te) = (usize::from(t.range.start()), usize::from(t.range.end()));
-                                    if ts < r.start || te > r.end || t.kind.is_trivia() { continue; }
-                                    let is_ident = t.kind == syntax::SyntaxKind::IDENT;
-                                    let is_slash = &tx[ts..te] == "/";
-                                    if (want_ident && !is_ident) || (!want_ident && !is_slash) { ok = false; break; }
-                                    want_ident = !want_ident;
-                                    n += 1;
-                                }
-                                modpath = ok && n >= 3 && !want_ident;
+                            // a module path: the range is the text range of a MODULE_PATH node of the file's tree (also a
+                            // damaged path such as `import a / : b`, whose node contains the error token)
+                            if ntok > 1 || ntok == -1 {
+                                let parse = syntax::parse_module(tx);
+                                modpath = parse.syntax_node().descendants().any(|n| n.kind() == syntax::SyntaxKind::MODULE_PATH
+                                    && usize::from(n.text_range().start()) == r.start && usize::from(n.text_range().end()) == r.end);
                             }
                             (tx.len(), bs, be, ntok)
                         }
